@@ -398,17 +398,20 @@ def record_schedule(mod, seed: int, nsteps: int):
 
 
 _SRCINFO = None
+_SYMREPR = None
 
 
 def errtext(e) -> str:
-    """exception type and message; source positions (file:line[:col]) are replaced, since the file name and the
-    line numbers legitimately differ between the module layouts of one session (error text is not an output the
-    property speaks about; it is compared so that a session cannot silently fail in some variants only)"""
-    global _SRCINFO
+    """exception type and message, with source positions (file:line[:col]) and the numeric suffix of repr(Sym)
+    (name_<counter>) replaced: file names and line numbers legitimately differ between the module layouts of one
+    session, and repr(Sym) shows the global counter.  Error text is not an output the property speaks about; it is
+    compared (modulo these two) so that a session cannot silently fail in some variants only."""
+    global _SRCINFO, _SYMREPR
     import re
     if _SRCINFO is None:
         _SRCINFO = re.compile(r"[^\s:'\"]+\.py:\d+(?::\d+)?")
-    return "%s: %s" % (type(e).__name__, _SRCINFO.sub("<src>", str(e)))
+        _SYMREPR = re.compile(r"\b([A-Za-z_][A-Za-z0-9_]*?)_\d+\b")
+    return "%s: %s" % (type(e).__name__, _SYMREPR.sub(r"\1_<id>", _SRCINFO.sub("<src>", str(e))))
 
 
 def outputs_of(print_procs, compile_lists):
